@@ -481,6 +481,38 @@ def Term.tagFreeL : List Term → Bool
   | t :: ts => t.tagFree && Term.tagFreeL ts
 end
 
+/-! ### the operators that build grammars (Parser.__add__/__or__ 255-279, Sequence.__add__ 624-625,
+Choice.__or__ 660-661, Lift.__mul__ 996-997): what `x + y`, `x | y`, `x * y` BUILD -/
+
+/-- `x + y`: a Sequence on the LEFT accumulates `y` onto itself (`Sequence.__add__` = `add_child`);
+anything else — a Sequence on the right included — becomes one child of a new two-element Sequence
+(`Parser.__add__`), so it contributes ONE value, its own list if it is a sequence. -/
+def plus : Term → Term → Term
+  | .seq xs, y => .seq (xs ++ [y])
+  | x, y => .seq [x, y]
+
+/-- `x | y`: likewise for Choice -/
+def alt : Term → Term → Term
+  | .choice xs, y => .choice (xs ++ [y])
+  | x, y => .choice [x, y]
+
+/-- `x * y`: only a Lift has `__mul__` (it accumulates an argument parser); `none` = TypeError -/
+def mul : Term → Term → Option Term
+  | .lift f xs, y => some (.lift f (xs ++ [y]))
+  | _, _ => none
+
+def Term.isSeq : Term → Bool
+  | .seq _ => true
+  | _ => false
+
+def Term.isChoice : Term → Bool
+  | .choice _ => true
+  | _ => false
+
+def Res.isOk : Res → Bool
+  | .ok _ _ => true
+  | _ => false
+
 /-! ### the syntactic discipline of grammars that terminate (what harness/c19.py's generator enforces) -/
 
 def Prim.consuming : Prim → Bool
